@@ -6,7 +6,7 @@
    partial). *)
 From Coq Require Import List Arith ZArith Bool Lia.
 Import ListNotations.
-From GG Require Import Text Json Text_proofs.
+From GG Require Import Text Json Text_proofs Sdl Sdl_proofs Json_proofs.
 
 (* names (symbols, variable names, unquoted keys) are exactly the non-empty words over [A-Za-z0-9_];
    number tokens are words over [0-9+-.eE]; the string delimiters and NUL are in no class; comma is
@@ -35,6 +35,33 @@ Theorem C18_string_writer_ascii :
     (exists b, write_rune r = [b] /\ b <> 34 /\ b <> 92 /\ 32 <= b) \/ (exists tl, write_rune r = 92 :: tl).
 Proof. exact write_rune_ascii_safe. Qed.
 Print Assumptions C18_string_writer_ascii.
+
+(* Every string constant written by the writer - any runes: quotes, backslashes, every control
+   character, non-ASCII - is a valid JSON string for the reference reader written from RFC 8259, which
+   stops right behind the closing quote and returns exactly the string's items. *)
+Theorem C18_json_string_constant_valid :
+  forall rs acc k, Forall wf_rune rs ->
+    json_string (length (flat_map write_rune rs) + 1) (flat_map write_rune rs ++ 34 :: k) acc
+    = Some (rev acc ++ flat_map rune_items rs, k).
+Proof. exact json_string_written. Qed.
+Print Assumptions C18_json_string_constant_valid.
+
+(* Hence a string value written in JSON mode, at every indent setting, is valid JSON text that
+   decodes to the string. *)
+Theorem C18_json_string_value_valid :
+  forall sdl indent s, Forall wf_rune s ->
+    json_parse (write_value sdl indent (WStr s) 0) = Some (to_json (WStr s)).
+Proof. exact json_written_string_value_valid. Qed.
+Print Assumptions C18_json_string_value_valid.
+
+(* The same constant is read back rune for rune by ggql's own reader (proved for C15). *)
+Theorem C18_string_constant_round_trip :
+  forall r rs s k,
+    Forall wf_rune (r :: rs) -> write_rune r <> [] ->
+    ready s (34 :: flat_map write_rune (r :: rs) ++ 34 :: k) ->
+    exists s', read_string (length (flat_map write_rune (r :: rs)) + 1) s = ROk (Some (flat_map ritems (r :: rs))) s' /\ ready s' k.
+Proof. exact read_string_written. Qed.
+Print Assumptions C18_string_constant_round_trip.
 
 (* ---- computed instances of the round trip (model writer -> model reader / reference JSON reader) ---- *)
 Definition rn (c : nat) : wrune := mkWR c [c].
